@@ -19,6 +19,9 @@ type CaseFL struct {
 	Msg  bool   `json:"msg"`  // go through ParseSIPMsg (+Method()) instead of ParseFLine
 	Cut  int    `json:"cut"`  // > 0: feed the first Cut bytes first, then everything (the decomposition must not depend on it)
 	Used B      `json:"used"` // non-empty: the object first parses this other line and is Reset() (ParseFLine entry)
+	// NotReply: the line (a request line by construction whose first token holds a control byte) only has to be
+	// "not a reply": rejected, or decomposed as the request it is
+	NotReply bool `json:"not_reply,omitempty"`
 }
 
 func (c CaseFL) line() []byte {
@@ -205,6 +208,9 @@ func evalFL(c CaseFL) Result {
 		o, e = sipsp.ParseFLine(buf, start, fl)
 	}
 	f := c.FL
+	if c.NotReply && (isErrVerdict(e) || e == sipsp.ErrHdrBadChar) {
+		return ok(true, "control-byte-in-first-token:rejected")
+	}
 	if c.Miss != "" {
 		// a line violating the grammar must be rejected, not mis-split
 		if c.Msg {
@@ -400,6 +406,53 @@ func enumRequestLines(emit func(CaseFL) bool) {
 				for _, msg := range []bool{false, true} {
 					c := CaseFL{FL: FLSpec{Req: true, Method: B(v), URI: B("sip:u@h;x=1?y"), Ver: B("SIP/2.0"), EOL: B(eol)},
 						Tail: B("Via: SIP/2.0/UDP h\r\n\r\n"), Msg: msg}
+					if !emit(c) {
+						return
+					}
+				}
+			}
+		}
+	}
+}
+
+// enumPrefixBytes: "SIP/2.0 200 OK" with every byte value at each of its first eight positions. Only the eight
+// letter-case variants of "SIP/2.0 " make it a status line; any other visible byte makes it the request line
+// "<7-byte method> 200 OK" (or, at the position of the blank, a two-token line that must be rejected); with a control
+// or 8-bit byte it must at least not be taken for a reply.
+func enumPrefixBytes(emit func(CaseFL) bool) {
+	const tmpl = "SIP/2.0 200 OK"
+	for _, base := range []string{tmpl, "sip/2.0 200 OK", "SiP/2.0 404 Not Found"} {
+		for p := 0; p < 8; p++ {
+			for v := 0; v < 256; v++ {
+				b := []byte(base)
+				if b[p] == byte(v) || v == ' ' || v == '\t' || v == '\r' || v == '\n' {
+					continue
+				}
+				b[p] = byte(v)
+				rest := string(b[8:])
+				code, reason := rest[:3], ""
+				if len(rest) > 4 {
+					reason = rest[4:]
+				}
+				for _, msg := range []bool{false, true} {
+					c := CaseFL{Tail: B("Via: SIP/2.0/UDP h\r\n\r\n"), Msg: msg}
+					switch {
+					case asciiLower(b[:8]) == "sip/2.0 ":
+						c.FL = FLSpec{Ver: B(b[:7]), Code: B(code), Reason: B(reason), EOL: B("\r\n")}
+					case p == 7:
+						// no blank after the version-like token: "SIP/2.0x200 OK" has two tokens only
+						if reason != "OK" {
+							continue
+						}
+						c.FL = FLSpec{Req: true, Method: B(b[:11]), URI: B("OK"), EOL: B("\r\n")}
+						c.Miss = "missing-token"
+					default:
+						if reason != "OK" {
+							continue // three tokens only in the first two templates
+						}
+						c.FL = FLSpec{Req: true, Method: B(b[:7]), URI: B(code), Ver: B(reason), EOL: B("\r\n")}
+						c.NotReply = v < 0x21 || v > 0x7e
+					}
 					if !emit(c) {
 						return
 					}
